@@ -122,15 +122,16 @@ UNITS += [
 R_DROP_E = Rw("collector.add_error", "", kind="dropargs", count=None, why="CheckError payload dropped; reporting kept")
 R_DROP_W = Rw("collector.add_warn", "", kind="dropargs", count=None, why="CheckError payload dropped; reporting kept")
 R_PACKID = Rw("PackId::from(id)", "vpackid(id)", count=None, why="From<Id> for PackId (newtype wrap)")
+R_ERRVAL = Rw(r"let (?P<v>\w+) = CheckError::\w+\s*\{[^{}]*\};", r"let \g<v> = ();", regex=True, count=None, why="a CheckError value bound to a variable (payload for the report only) -> unit")
 UNITS += [
     Unit(name="check_packs_list", file=CK, anchor="fn check_packs_list(", ret_name="r",
          functions=["commands::check::check_packs_list"],
          rewrites=[
              Rw("be: &impl ReadBackend,", "be: &VListBackend,", sig=True, why="impl ReadBackend -> listing stub"),
-             R_DROP_E, R_DROP_W, R_PACKID,
+             R_ERRVAL, R_DROP_E, R_DROP_W, R_PACKID,
              Rw("packs_from_be.sort_by_key(|item| item.0);", "vsort_by_id(&mut packs_from_be);", why="sort_by_key with closure -> permutation stub"),
              Rw("for (id, size) in packs_from_be {", "for x in it: packs_from_be.iter() { let (id, size) = *x;", why="Verus for-loop syntax; by-reference iteration + destructuring"),
-             Rw("for (id, (size, to_delete)) in packs {", "let ents = packs.ventries(); for e in it2: ents.iter() {", why="map iteration -> entries vector"),
+             Rw("for (id, (size, to_delete)) in packs {", "let ents = packs.ventries(); for e in it2: ents.iter() { let (id, (size, to_delete)) = (&e.0, (&e.1.0, &e.1.1));", why="map iteration -> entries vector (same bindings, by reference)"),
          ],
          contract="""
     ensures
@@ -152,9 +153,9 @@ UNITS += [
          functions=["commands::check::check_packs_list_hot"],
          rewrites=[
              Rw("be: &impl ReadBackend,", "be: &VListBackend,", sig=True, why="impl ReadBackend -> listing stub"),
-             R_DROP_E, R_DROP_W, R_PACKID,
+             R_ERRVAL, R_DROP_E, R_DROP_W, R_PACKID,
              Rw("for (id, size) in be.list_with_size(FileType::Pack)? {", "let listing = be.list_with_size(FileType::Pack)?; let ghost tp0 = treepacks@; for x in it: listing.iter() { let (id, size) = *x;", why="Verus for-loop syntax; by-reference iteration + destructuring"),
-             Rw("for (id, (size, to_delete)) in treepacks {", "let ents = treepacks.ventries(); for e in it2: ents.iter() {", why="map iteration -> entries vector"),
+             Rw("for (id, (size, to_delete)) in treepacks {", "let ents = treepacks.ventries(); for e in it2: ents.iter() { let (id, (size, to_delete)) = (e.0, (e.1.0, e.1.1));", why="map iteration -> entries vector (same bindings)"),
          ],
          contract="""
     ensures
@@ -217,7 +218,7 @@ UNITS += [
          block_tail="",
          functions=["commands::check::check_trees (per-tree loop over the nodes: every referenced blob is indexed, its pack recorded)"],
          rewrites=[
-             R_DROP_E, R_DROP_W,
+             R_ERRVAL, R_DROP_E, R_DROP_W,
              Rw("for node in tree.nodes {", "for node in it: tree.nodes.iter() {", why="Verus for-loop syntax; iteration by reference"),
              Rw("NodeType::File => node.content.as_ref().map_or_else(", "NodeType::File => match node.content.as_ref() {", why="Option::map_or_else(|| A, |content| B) -> match { None => A, Some(content) => B } (closures capturing `packs` mutably are outside Verus)"),
              Rw("                    || {\n", "                    None => {\n", why="map_or_else -> match (None arm)"),
@@ -263,7 +264,7 @@ UNITS += [
              Rw("repo: &Repository<S>,", "repo: &VRepoC,", sig=True, why="Repository<S> -> progress stub"),
              Rw("be: &impl DecryptReadBackend,", "be: &VListBackend,", sig=True, why="impl DecryptReadBackend -> listing + index-file stream stub"),
              Rw("hot_be: Option<&impl ReadBackend>,", "hot_be: Option<&VListBackend>,", sig=True, why="impl ReadBackend -> listing stub"),
-             R_DROP_E, R_DROP_W, R_DISCARD,
+             R_ERRVAL, R_DROP_E, R_DROP_W, R_DISCARD,
              Rw("BTreeMap::new()", "VMap::new()", count=None, why="BTreeMap -> map stub"),
              Rw("for index in be.stream_all::<IndexFile>(&p)? {", "let vstream = be.vstream_all_index(&p)?; for index in it: vstream.into_iter() {", why="channel stream -> vector of per-file results; Verus for-loop syntax"),
              Rw(r"index\.(?P<f>packs\w*)\.clone\(\)", r"vclone_packs(&index.\g<f>)", regex=True, count=None, why="Vec<IndexPack>::clone"),
